@@ -22,7 +22,7 @@ import (
 func init() {
 	Register(&Monitor{
 		ID: "C13",
-		Rule: "per case one session: a shared document (through the store or through ReadXml), a pool of separately compiled expressions that are reused many times, shared binding maps assigned CLI-style (two namespace environments; per call one of four function libraries: shared, none, unset, or one that adds g() and shadows string-length()/count()), and a pool of caller-held NodeSets (earlier results, reverse-ordered copies, sub-slices full[i:j] with spare capacity whose backing array holds sentinel cursors beyond len); a PRNG-determined history of Exec (from the root / inner nodes, with pooled NodeSets as variables and as the return value of a custom function, used as union operands, filter primaries, path heads and function arguments), Unmarshal and re-BuildExpr operations; " +
+		Rule: "per case one session: a shared document (through the store or through ReadXml), a pool of separately compiled expressions that are reused many times, shared binding maps assigned CLI-style (two namespace environments; per call one of four function libraries: shared, none, unset, or one that adds g() and shadows string-length()/count()), and a pool of caller-held NodeSets (earlier results — always those a custom function step built from the context it was handed —, reverse-ordered copies, sub-slices full[i:j] with spare capacity whose backing array holds sentinel cursors beyond len); a PRNG-determined history of Exec (from the root / inner nodes, with pooled NodeSets as variables and as the return value of a custom function, used as union operands, filter primaries, path heads and function arguments), Unmarshal and re-BuildExpr operations; " +
 			"oracle after every operation: deep snapshot of the cursor tree through the public interface (identity, Pos, kind/name/value, list membership and order, Parent) equals the initial one; every pooled NodeSet's length, capacity and all cap elements are unchanged; the binding maps are unchanged; a reflection-based structural hash of every Grammar (BSR forest and lexer, maps order-insensitively, pointers with cycle detection) is unchanged (checked every 16 operations and at the end); every (expression, start node, bindings) triple is re-executed at random later points and must equal its first result (values; node identity and order; four in ten Exec operations repeat an earlier call exactly); custom functions resolve only in the calls that bind them; two BuildExpr of one string agree, also when the second compilation happens sessions later in the same process (after thousands of other BuildExpr calls), judged on a fixed document. distinct_nontrivial = distinct (operation kind, expression) pairs with a non-empty result",
 		NCases: func(tier string) int { return map[string]int{"quick": 800, "thorough": 8000}[tier] },
 		Case:   c13Case,
@@ -289,6 +289,11 @@ func c13Case(r *evid.Run, tier string, idx int, g *rng.R) {
 		xast.Path{Head: xast.Paren{X: xast.Call{Prefix: "p", Local: "nodes"}}, HPred: []xast.Expr{xast.N(2)}, Steps: []xast.Step{xast.S("parent", xast.NodeT())}},
 		xast.Fn("count", xast.Call{Prefix: "p", Local: "nodes"}), xast.Binary{Op: "|", L: xast.Call{Prefix: "p", Local: "nodes"}, R: vb},
 		xast.Path{Head: xast.Call{Prefix: "p", Local: "nodes"}, Steps: []xast.Step{xast.DS(), xast.S("child", xast.AnyT())}},
+		// a custom function used as a step: it returns the node-set it was handed as its context
+		xast.Path{Abs: true, Steps: []xast.Step{xast.DS(), {Fn: &xast.Call{Prefix: "p", Local: "ctx"}}}},
+		xast.Path{Abs: true, Steps: []xast.Step{xast.S("descendant-or-self", xast.NodeT()), {Fn: &xast.Call{Prefix: "p", Local: "ctx"}}}},
+		xast.Path{Abs: true, Steps: []xast.Step{xast.DS(), xast.S("child", xast.AnyT()), {Fn: &xast.Call{Prefix: "p", Local: "ctx"}}}},
+		xast.Path{Steps: []xast.Step{xast.S("descendant", xast.NodeT()), {Fn: &xast.Call{Prefix: "p", Local: "ctx"}}}},
 		// names that only some calls bind as custom functions (g) or shadow (string-length, count)
 		xast.Fn("g"), xast.Fn("string-length", xast.Lit{S: "abc"}), xast.Fn("count", xast.Abs(xast.DS(), xast.S("child", xast.NodeT()))),
 		xast.Fn("concat", xast.Fn("string-length", xast.Lit{S: "abcd"}), xast.Lit{S: "/"}, xast.Fn("count", xast.Abs(xast.S("child", xast.NodeT())))),
@@ -350,6 +355,13 @@ func c13Case(r *evid.Run, tier string, idx int, g *rng.R) {
 		sharedVars[xsel.XmlName{Space: uri, Local: "v"}] = xsel.String("var@" + uri)
 		sharedFns[xsel.XmlName{Space: uri, Local: "f"}] = func(ctx xsel.Context, args ...xsel.Result) (xsel.Result, error) {
 			return xsel.String("fn@" + uri), nil
+		}
+		sharedFns[xsel.XmlName{Space: uri, Local: "ctx"}] = func(ctx xsel.Context, args ...xsel.Result) (xsel.Result, error) {
+			// whatever the library hands the function as its context, or a prefix of it
+			if ns, ok := ctx.Result().(xsel.NodeSet); ok && len(ns) > 3 && len(args) == 0 {
+				return ns[:len(ns)-1], nil
+			}
+			return ctx.Result(), nil
 		}
 		sharedFns[xsel.XmlName{Space: uri, Local: "nodes"}] = func(ctx xsel.Context, args ...xsel.Result) (xsel.Result, error) {
 			// the caller's own slice, not a copy
@@ -496,7 +508,7 @@ func c13Case(r *evid.Run, tier string, idx int, g *rng.R) {
 			}
 			if ns, ok := res.(xsel.NodeSet); ok && len(ns) > 0 {
 				r.Sig("exec|"+p.src, true)
-				if g.P(10) && len(held) < 40 {
+				if (g.P(10) || strings.Contains(p.src, ":ctx()")) && len(held) < 60 {
 					// keep the result as a caller-held set (and a sub-slice of it)
 					held = append(held, hold(ns, fmt.Sprintf("result-of-op%d", op)))
 					if len(ns) >= 3 {
